@@ -64,6 +64,50 @@ def strategy(tier):
     return _scn()
 
 
+def enumerated(tier):
+    """every byte position of the first manifest of a fixed two-level world, one bit flipped, x {info, verify}"""
+    step = 64 if tier == "quick" else 1
+    chunk = 256
+    for start in range(0, 4096, chunk):
+        yield {"kind": "bytesweep", "start": start, "end": start + chunk, "step": step}
+
+
+def run_bytesweep(scn, ctx):
+    with World("c05s") as w:
+        w.build("R", {"a.txt": "alpha", "sub": {"b.bin": ["00ff", 500], "c c.txt": "gamma"}})
+        for root, fm in (("R/sub", ["md5"]), ("R", ["xxh64", "c4"]), ("R", ["sha1"])):
+            res = w.create(root, fm)
+            require(res.exit_code == 0, "setup", res.brief(), res)
+        victims = [w.manifests("R")[0][1], w.manifests("R/sub")[0][1]]
+        n = 0
+        for vp_ in victims:
+            path = w.abs(vp_)
+            original = open(path, "rb").read()
+            st_ = os.stat(path)
+            before = w.snapshot()
+            for pos in range(scn["start"], min(scn["end"], len(original)), scn["step"]):
+                b = bytearray(original)
+                b[pos] ^= 1 << (pos % 8)
+                with open(path, "wb") as fh:
+                    fh.write(bytes(b))
+                os.utime(path, ns=(st_.st_atime_ns, st_.st_mtime_ns))
+                tampered = w.snapshot()
+                for cmd in ("info", "verify"):
+                    res = getattr(w, cmd)("R")
+                    require(res.exit_code == 31 and res.exc is None, "exit-code", "%s with bit %d of byte %d of %s flipped: %s" % (cmd, pos % 8, pos, vp_, res.brief()), res)
+                    n += 1
+                require(w.snapshot() == tampered, "writes-nothing", "disk changed while refusing (byte %d of %s)" % (pos, vp_), None)
+            with open(path, "wb") as fh:
+                fh.write(original)
+            os.utime(path, ns=(st_.st_atime_ns, st_.st_mtime_ns))
+        ctx.event("bytesweep_runs", n)
+        ctx.event("bitflip")
+        ctx.event("nested_victim")
+        ctx.event("older_generation")
+        ctx.mark_nontrivial(n > 0)
+        return w.trace
+
+
 def tamper_bytes(data, t):
     n = len(data)
     p = min(n - 1, t["pos"] * n // 1000) if n else 0
@@ -143,6 +187,8 @@ def run_commands(w, scn, T, files_below, victim_hist, expect, ctx, label, ev):
 
 
 def run_case(scn, ctx):
+    if scn.get("kind") == "bytesweep":
+        return run_bytesweep(scn, ctx)
     with World("c05") as w:
         hist.setup_world(w, scn)
         top = scn["root"]
